@@ -125,6 +125,13 @@ impl<Write: WriteHalf> WriteConnection<Write> {
         &self.socket
     }
 
+    /// Verification hook: `(pos, buffer.len())`.
+    #[cfg(zlink_verif)]
+    #[doc(hidden)]
+    pub fn verif_state(&self) -> (usize, usize) {
+        (self.pos, self.buffer.len())
+    }
+
     async fn write<T>(&mut self, value: &T) -> crate::Result<()>
     where
         T: Serialize + ?Sized + Debug,
